@@ -70,7 +70,7 @@ struct Case {
 }
 
 const SHAPES: &[&str] = &["x.S", "x.y.S", ".x.S", "d.ir/x.S", "sub/dir/My File.S", "X.UPPER(S)", "x.S.bak", "xS", "x.S~", "x.S.S", "S/x.txt"];
-const MAPPINGS: &[&str] = &["none", "new=S", "other=S", "S=S"];
+const MAPPINGS: &[&str] = &["none", "new=S", "other=S", "S=S", "S=different"];
 const CONTENTS: &[&str] = &["probe", "unbalanced", "garbage"];
 
 fn name_for(shape: &str, suffix: &str) -> String {
@@ -80,8 +80,17 @@ fn name_for(shape: &str, suffix: &str) -> String {
     }
 }
 
+/// A registered suffix of another grammar whose comments the grammar of `suffix` does not see.
+fn different_suffix(suffix: &str) -> &'static str {
+    let hash_family = kit_for_suffix(suffix).is_some_and(|(k, _)| k.forms.iter().any(|f| f.open == "#"));
+    if hash_family { "js" } else { "py" }
+}
+
 fn check_case(case: &Case, sink: &Sink) {
-    let Some((kit, _)) = kit_for_suffix(case.suffix) else {
+    // `S=different`: the registered suffix itself is remapped to another registered grammar; the
+    // file then has to be read with that grammar, so the probe is the other grammar's.
+    let probe_suffix = if case.mapping == "S=different" { different_suffix(case.suffix) } else { case.suffix };
+    let Some((kit, _)) = kit_for_suffix(probe_suffix) else {
         sink.machinery(format!("no kit for suffix {}", case.suffix));
         return;
     };
@@ -98,6 +107,7 @@ fn check_case(case: &Case, sink: &Sink) {
         }
         "other=S" => extra.push(("other".into(), case.suffix.into())),
         "S=S" => extra.push((case.suffix.into(), case.suffix.into())),
+        "S=different" => extra.push((case.suffix.into(), probe_suffix.into())),
         _ => {}
     }
     let base = name.rsplit('/').next().unwrap().to_string();
@@ -145,7 +155,7 @@ fn check_case(case: &Case, sink: &Sink) {
                 let problems = c03::compare(&rendered, blocks, false);
                 sink.outcome(if problems.is_empty() { "native:agree" } else { "native:differ" });
                 for (kind, msg) in problems {
-                    sink.fail(format!("C16:{kind}:{}:{}", case.shape, case.mapping), format!("{name} should be parsed as {:?} like x.{}: {msg}", expected_suffix, case.suffix), input.clone());
+                    sink.fail(format!("C16:{kind}:{}:{}", case.shape, case.mapping), format!("{name} should be parsed as {:?} like x.{}: {msg}", expected_suffix, probe_suffix), input.clone());
                 }
             } else if case.content == "unbalanced" {
                 sink.outcome("native:unbalanced-accepted");
@@ -222,7 +232,7 @@ fn cli_slice(cfg: &Cfg, sink: &Sink) -> u64 {
 }
 
 pub fn run(cfg: &Cfg, sink: &Arc<Sink>) -> Report {
-    let mut report = Report::new("cases = 39 registered suffixes × 11 file-name shapes × 4 `-E` mappings × {native probe file of the grammar's kit, the probe with one end tag removed, garbage} × {scan, diff, diff+glob}; when the reference lookup maps the name to the suffix's grammar the found blocks must equal the construction, when it maps to no grammar nothing may be found or raised; plus a CLI slice for `-E` parsing/validation; non-trivial = every case");
+    let mut report = Report::new("cases = 39 registered suffixes × 11 file-name shapes × 5 `-E` mappings (none, new extension, unused, identity, registered suffix remapped to another grammar) × {native probe file of the grammar's kit, the probe with one end tag removed, garbage} × {scan, diff, diff+glob}; when the reference lookup maps the name to the suffix's grammar the found blocks must equal the construction, when it maps to no grammar nothing may be found or raised; plus a CLI slice for `-E` parsing/validation; non-trivial = every case");
     report.assume("reference lookup: the shortest registered dot-suffix of the base name wins, else the whole base name; `-E from=to` substitutes `from`");
     // The hard-coded table must equal the implementation's registered suffixes.
     let mut registered: Vec<String> = REGISTERED.iter().map(|s| s.to_string()).collect();
